@@ -1231,12 +1231,16 @@ impl FatVolume {
                 }
                 Err(Error::EndOfFile) => {
                     self.update_fat(block_cache, next, ClusterId::EMPTY)?;
+                    // the last cluster of the chain has been freed too
+                    if let Some(ref mut number_free_cluster) = self.free_clusters_count {
+                        *number_free_cluster = number_free_cluster.saturating_add(1);
+                    };
                     break;
                 }
                 Err(e) => return Err(e),
             }
             if let Some(ref mut number_free_cluster) = self.free_clusters_count {
-                *number_free_cluster += 1;
+                *number_free_cluster = number_free_cluster.saturating_add(1);
             };
         }
         Ok(())
